@@ -181,6 +181,14 @@ Lemma old_refused_changes_state :
   fst (inject old_cfg (sealed_init old_cfg) r) = sealed_init old_cfg.
 Proof. vm_compute. repeat split; reflexivity. Qed.
 
+Lemma old_refused_changes_state_refuted :
+  exists c s r, snd (inject_old c s r) <> 200 /\ fst (inject_old c s r) <> s /\ fst (inject c s r) = s.
+Proof.
+  exists old_cfg, (sealed_init old_cfg), {| i_tls := true; i_chain := true; i_field := Some [112] |}.
+  destruct old_refused_changes_state as [A [B [C D]]]. split; [rewrite A; discriminate|]. split; [|exact D].
+  intros X. rewrite X in B. discriminate.
+Qed.
+
 Lemma only_right_pass c s r s' code :
   inject c s r = (s', code) -> signer s = None -> signer s' <> None ->
   i_tls r = true /\ i_chain r = true /\ i_field r = Some (right_pass c) /\ code = 200 /\
